@@ -180,6 +180,50 @@ def alias_globals(units, rel, log):
         log.append(("<global>", "%s -> %s" % (k, v)))
 
 
+def canonical_atomics(fd):
+    """`atomic_load(&x)` / `atomic_store(&x, v)` with sequentially consistent order are the plain read / assignment of the _Atomic object x
+    spelled out: both spellings get the representation of the plain one (an lvalue-to-rvalue conversion / an assignment whose target is
+    marked atomic), so that the rules see one form.  Orders other than seq_cst keep the explicit node."""
+    nodes = fd["nodes"]
+    for i, n in enumerate(nodes):
+        if n["k"] != "AtomicExpr" or n.get("order") != "seq_cst":
+            continue
+        a = n.get("aop", "")
+        for pre in ("__c11_atomic_", "__atomic_", "__opencl_atomic_"):
+            if a.startswith(pre):
+                a = a[len(pre):]
+        if a not in ("load", "load_n", "store", "store_n"):
+            continue
+        p = n.get("ptr")
+        if not isinstance(p, int) or p < 0:
+            continue
+        x = p
+        while nodes[x]["k"] in ("ImplicitCastExpr", "ParenExpr", "CStyleCastExpr") and nodes[x]["c"]:
+            x = nodes[x]["c"][0]
+        if nodes[x]["k"] == "UnaryOperator" and nodes[x].get("op") == "&" and nodes[x]["c"]:
+            lv = nodes[x]["c"][0]
+            y = lv
+            while nodes[y]["k"] == "ParenExpr":
+                y = nodes[y]["c"][0]
+            nodes[y]["tatomic"] = True
+        else:
+            nodes.append({"k": "UnaryOperator", "op": "*", "c": [p], "l": n.get("l"), "src": "*" + nodes[p].get("src", "?"), "t": n.get("t"),
+                          "lv": True, "tatomic": True, "synthetic": "deref"})
+            lv = len(nodes) - 1
+        keep = {k: n.get(k) for k in ("l", "col", "src", "t", "m", "mtop", "inl", "ifile") if n.get(k) is not None}
+        if a.startswith("load"):
+            n.clear()
+            n.update(keep)
+            n.update({"k": "ImplicitCastExpr", "ck": "LValueToRValue", "c": [lv], "canon": "atomic_load"})
+        else:
+            v = n.get("val1")
+            if not isinstance(v, int) or v < 0:
+                continue
+            n.clear()
+            n.update(keep)
+            n.update({"k": "BinaryOperator", "op": "=", "c": [lv, v], "canon": "atomic_store"})
+
+
 def load_signatures():
     return json.load(open(CENSUS)).get("signatures", {})
 
